@@ -17,12 +17,14 @@ PY
 python3 - <<'PY' || true
 import sys, os
 sys.path.insert(0, 'hvx')
-import kani_unit, registry
+import kani_unit, registry, verus_unit
 for name, u in registry.KANI_UNITS.items():
     try:
         if u['mode'] == 'dep':
             dst = os.path.join('build', 'kani', name)
             kani_unit._sync_crate(u['crate'], dst)
+            for tin, tout in u.get('gen', []):
+                verus_unit.generate(os.path.join(dst, tin), os.path.join(dst, tout))
             r = kani_unit.run_kani(dst, ['hvx_warmup_no_such_harness'], jobs=2, timeout=1500)
             print('warm', name, round(r['wall_s'], 1), 's')
     except Exception as e:
